@@ -1235,7 +1235,10 @@ def _load_seeded():
             diff = open(_os.path.join(d, "patch.diff")).read()
         except OSError:
             continue
-        props = sorted(meta.get("flagged_by_checks", {}))
+        # expected_props is frozen when the change is first confirmed as
+        # caught; flagged_by_checks is refreshed by tools_refresh_seeded.py
+        props = sorted(meta.get("expected_props") or
+                       meta.get("flagged_by_checks", {}))
         if not props:
             continue
         B("seeded-" + sid, props, [],
@@ -1293,3 +1296,9 @@ def _load_refactors():
 
 
 _load_refactors()
+
+
+# ================================================================== R49
+B("c03-week-year-never-previous", ["C03"], ["R49"],
+  ("data", "        start_year, start_month, start_day = prev_start\n        week_date_start_year = year - 1",
+   "        start_year, start_month, start_day = prev_start\n        week_date_start_year = year"))
